@@ -234,7 +234,7 @@ class C16(HsProp):
 class C17(HsProp):
     id = 'C17'
     rule = ('valid and invalid heads x segmentations (whole, every line boundary, every byte of the first line, last bytes, random 2..40 pieces) x WouldBlock before any read/write/flush '
-            'x partial write sizes; endless/oversized heads (1/127/128/200/4096-byte drip, 125+ headers, no terminator); parser assumptions P1-P3 on every prefix (TP); attack-check arithmetic (AC)')
+            'x partial write sizes; valid heads completed exactly by the read that trips a guard (65th small read, the read crossing 64 KiB) and one read earlier; endless/oversized heads (1/127/128/200/4096-byte drip, 125+ headers, no terminator); parser assumptions P1-P3 on every prefix (TP); attack-check arithmetic (AC)')
     level_text = 'DoS-guard arithmetic, bounded rounds, write exactness and resumption proved on the machine model for any parser; segmentation invariance under parser hypotheses P1-P2'
     level_note = 'Trusted: Coq kernel, Handshake.v, parser hypotheses P1-P3 (tested), correspondence generators'
     def generate(self, tier, rng):
@@ -287,6 +287,27 @@ class C17(HsProp):
             head = gen_hs.big_valid_request(total)
             for chunks in ([head], [head[i:i + 4096] for i in range(0, len(head), 4096)], [head[i:i + 1000] for i in range(0, len(head), 1000)]):
                 out.append(gen_hs.hs_case('sg9_%d' % k, 'none', ['r'], gen_hs.rds_of(chunks), [], [])); k += 1
+        # the read that completes a VALID head is also the read that trips a guard (65th small read; the read crossing 64 KiB):
+        # the guard is applied to every read, so the outcome must be AttackAttempt, and one read earlier success
+        def pieces(data, n):
+            base, extra = divmod(len(data), n)
+            out_, pos = [], 0
+            for i in range(n):
+                sz = base + (1 if i < extra else 0)
+                out_.append(data[pos:pos + sz]); pos += sz
+            return [c for c in out_ if c]
+        for n in (63, 64, 65, 66, 70, 100):
+            out.append(gen_hs.hs_case('gb%d' % k, 'none', ['r'], gen_hs.rds_of(pieces(good, n)), [], [])); k += 1
+            out.append(gen_hs.hc_case('gbc%d' % k, b'ws://example.com/', ops=['r'], rds=gen_hs.rds_of(pieces(resp, n)))); k += 1
+        for per in (127, 128, 129):
+            head = gen_hs.big_valid_request(65 * per)
+            out.append(gen_hs.hs_case('gb%d' % k, 'none', ['r'], gen_hs.rds_of(pieces(head, 65)), [], [])); k += 1
+            head = gen_hs.big_valid_request(64 * per)
+            out.append(gen_hs.hs_case('gb%d' % k, 'none', ['r'], gen_hs.rds_of(pieces(head, 64)), [], [])); k += 1
+        for total in (61440, 65535, 65536, 65537, 66000, 69632):
+            head = gen_hs.big_valid_request(total)
+            for chunks in ([head], [head[i:i + 4096] for i in range(0, len(head), 4096)], [head[i:i + 4000] for i in range(0, len(head), 4000)]):
+                out.append(gen_hs.hs_case('gb%d' % k, 'none', ['r'], gen_hs.rds_of(chunks), [], [])); k += 1
         # mixed-size endless heads: the arithmetic cases below are also run against the real handshake
         ac_lists = []
         for i in range(12 if quick else 120):
